@@ -144,12 +144,30 @@ end
 def tab (n : Nat) : String := String.ofList (List.replicate (4*n) ' ')
 def joinNl (l : List String) : String := "\n".intercalate l
 
+def hexDigit (n : Nat) : Char := if n < 10 then Char.ofNat (48 + n) else Char.ofNat (87 + n)
+
+/-- Python `repr()` of a `str` (used by the generated source for literals and for the pattern-text comment): quote choice,
+    backslash escapes, `\xNN` for C0/DEL/C1 controls; other non-ASCII characters are taken to be printable -/
+def pyRepr (s : String) : String :=
+  let cs := s.toList
+  let q : Char := if cs.contains '\'' && !cs.contains '"' then '"' else '\''
+  let esc : Char → List Char := fun c =>
+    if c == '\\' then ['\\', '\\']
+    else if c == q then ['\\', c]
+    else if c == '\t' then ['\\', 't']
+    else if c == '\n' then ['\\', 'n']
+    else if c == '\r' then ['\\', 'r']
+    else if c.toNat < 32 || (127 ≤ c.toNat && c.toNat < 161) || c.toNat == 173 then
+      ['\\', 'x', hexDigit (c.toNat / 16), hexDigit (c.toNat % 16)]
+    else [c]
+  String.ofList (q :: cs.flatMap esc ++ [q])
+
 mutual
 def render (ind : Nat) : Cx → String
   | .ifPathLen cmp n ch => s!"{tab ind}if path_len {cmp} {n}:\n{renderL (ind+1) ch}"
-  | .ifLit i lit ch => s!"{tab ind}if path[{i}] == '{lit}':\n{renderL (ind+1) ch}"
+  | .ifLit i lit ch => s!"{tab ind}if path[{i}] == {pyRepr lit}:\n{renderL (ind+1) ch}"
   | .ifPattern si pi text ch =>
-    s!"{tab ind}match = patterns[{pi}].match(path[{si}])  # {text}\n{tab ind}if match is not None:\n{renderL (ind+1) ch}"
+    s!"{tab ind}match = patterns[{pi}].match(path[{si}])  # {pyRepr text}\n{tab ind}if match is not None:\n{renderL (ind+1) ch}"
   | .ifConv u ci ch =>
     s!"{tab ind}field_value_{u} = converters[{ci}].convert(fragment)\n{tab ind}if field_value_{u} is not None:\n{renderL (ind+1) ch}"
   | .setFragField n => s!"{tab ind}fragment = groups.pop('{n}')"
